@@ -12,6 +12,12 @@ def fscore_small(ctx):
     graph_stage(ctx, "fscore-times", "MC_FSCore.tla", "FSCore.times.cfg", "fscore", FS_ADAPTERS, ["--names", "a", "--depth", "3"], workers=4)
     # names that are string prefixes of each other ("a", "ab"): only whole elements count
     graph_stage(ctx, "fscore-prefix", "MC_FSCore.tla", "FSCore.prefix.cfg", "fscore", FS_ADAPTERS, ["--names", "a,ab", "--depth", "3"], workers=4)
+    fscore_dotname(ctx)
+
+
+def fscore_dotname(ctx):
+    # a name that begins with a dot is a name like any other (listed, stat-able, removable), also directly below the root
+    graph_stage(ctx, "fscore-dotname", "MC_FSCore.tla", "FSCore.dotname.cfg", "fscore", FS_ADAPTERS, ["--names", ".a,a", "--depth", "3"], workers=4)
 
 
 def fscore_stages(ctx):
@@ -59,6 +65,7 @@ def c01_stages(ctx):
 
 def c16_stages(ctx):
     dirh_stages(ctx)
+    fscore_dotname(ctx)
     graph_stage(ctx, "fscore-quick", "MC_FSCore.tla", "FSCore.quick.cfg", "fscore", FS_ADAPTERS, ["--names", "a,b", "--depth", "3"])
 
 
